@@ -96,6 +96,17 @@ func (o *wireOracle) frame(tf *TapFrame) {
 			w.violate("C06", "emitted-frame-undecodable", "%s: %v (%d bytes: % x...)", where, tf.Err, len(f.Raw), f.Raw[:min(len(f.Raw), 48)])
 			return
 		}
+		// ... and its reserved header bytes are zero, as an encoder written from the
+		// specification leaves them (a relay passes a forwarded frame's header on as it came)
+		if n := w.node(em); n != nil && n.Opts.Relay == nil && len(f.Raw) >= wire.HeaderSize {
+			zero := f.Raw[3] == 0
+			for i := 8; i < 16; i++ {
+				zero = zero && f.Raw[i] == 0
+			}
+			if !zero {
+				w.violate("C06", "reserved-bytes-not-zero", "%s: %s carries reserved header bytes % x / % x (stale bytes of a frame received earlier from some peer?)", where, wire.TypeName(f.Type), f.Raw[3:4], f.Raw[8:16])
+			}
+		}
 	} else if tf.Err != nil {
 		return // hostile bytes: nothing to judge on the sender side
 	}
